@@ -298,5 +298,31 @@ pub fn run(ctx: &Ctx) -> Report {
     }
   }
   report.model_requests = model.requests;
+  // ---- lengths of 2^64 bytes and more, which no machine word holds, written plainly and with units: far above 2^32-1,
+  // so refused whatever is allowed (none of them is a power of two, or a multiple of 2^64 away from an acceptable length
+  // by accident: each is 2^64 + an acceptable length, or 3 * 2^63 + one)
+  if ctx.replay.is_none() || super::replay_cases(ctx).map(|rc| rc.iter().any(|v| v.get("beyond_u64").is_some())).unwrap_or(false) {
+    let beyond = ["18446744073709568000", "18014398509482000KiB", "17592186044417MiB", "17179869185GiB", "16777217TiB", "16385PiB", "27670116110564343808", "27021597764222992KiB", "18014398509482000kib", "17592186044417.0MiB"];
+    for text in beyond {
+      for mask in 0..8u64 {
+        let sb = Sandbox::new(&ctx.work, "c14b");
+        sb.write("content", b"0123456789abcdefghij");
+        let mut args = vec!["torrent", "create", "--input", "content", "--output", "out.torrent", "--announce", "http://tracker.example/announce", "--piece-length", text];
+        for (i, l) in LINTS.iter().enumerate() {
+          if mask >> i & 1 == 1 {
+            args.extend(["--allow", *l]);
+          }
+        }
+        let o = Cmd::new(&ctx.imdl, &args).cwd(&sb.root).run();
+        let case = json!({"beyond_u64": text, "allow_mask": mask});
+        report.case(Some(fnv_str(&case.to_string())));
+        report.hit("length:beyond-2^64");
+        let written = sb.path("out.torrent").exists();
+        if o.code != Some(1) || written {
+          report.fail("property", "create-lint-decision", case, format!("piece length `{text}` is above 2^32-1 and must be refused whatever is allowed: exit {:?}, torrent written: {written}", o.code));
+        }
+      }
+    }
+  }
   report
 }
